@@ -41,8 +41,9 @@ def scenarios(env, offset):
 
     out = []
 
-    def add(name, traced, expr, table=None, key=None, threads=(2, 3), wide=False, mixed=None, post=None, may_raise=()):
-        out.append(dict(name=name, traced=traced, expr=expr, table=table, key=key, threads=threads, wide=wide, mixed=mixed, post=post, may_raise=may_raise))
+    def add(name, traced, expr, table=None, key=None, threads=(2, 3), wide=False, mixed=None, post=None, may_raise=(), independent=False):
+        out.append(dict(name=name, traced=traced, expr=expr, table=table, key=key, threads=threads, wide=wide, mixed=mixed, post=post, may_raise=may_raise,
+                        independent=independent))
 
     add("Dimension(exponents)", NEW, lambda n: (lambda: Dimension(dim_exps(n))), Dimension._known, lambda n: dim_exps(n))
     add("Length**k", DIMOPS, lambda n: (lambda: Length ** (2000 + offset + n)))
@@ -159,6 +160,33 @@ def scenarios(env, offset):
         return [bad, anon] if k == 2 else [anon, bad, (lambda: Dimension(ex))]
     add("Dimension refused declaration vs anonymous", NEW, lambda n: (lambda: Dimension(tuple([0, 0, 0, 38000 + offset + n] + [0] * (width - 4)))), Dimension._known,
         lambda n: tuple([0, 0, 0, 38000 + offset + n] + [0] * (width - 4)), mixed=refused_dim, may_raise=(ValueError,))
+    # two (three) *different* base units declared side by side: afterwards every spelling of their product is one object
+    def two_declarations(n, k):
+        dims_ = [m.Time, m.Mass, m.Length]
+        return [(lambda i=i: Unit.define(dims_[i], f"c20decl{offset + n}x{i}", f"c20d{offset + n}x{i}")) for i in range(k)]
+
+    def products_commute(n, objs):
+        bad = []
+        import itertools
+        units_ = list(objs)
+        ref = None
+        for perm in itertools.permutations(units_):
+            p_ = perm[0]
+            for u_ in perm[1:]:
+                p_ = p_ * u_
+            q_ = perm[0]
+            for u_ in perm[1:]:
+                q_ = q_ / u_ ** -1
+            ref = ref or p_
+            if p_ is not ref or q_ is not ref:
+                bad.append(f"the product of {[u.names[0] for u in perm]} is another object than the product in another order")
+                break
+        if len({id(u) for u in units_}) != len(units_):
+            bad.append("two declarations of different units returned one object")
+        return bad
+    add("two base units declared side by side", UNITOPS | {"Unit.define", "Unit._check_alias"}, lambda n: (lambda: None), mixed=two_declarations, post=products_commute,
+        independent=True, wide=True)
+
     # exponents written down before a later Dimension.define (a stored document) racing with the current spelling and
     # with arithmetic: all three denote one dimension.  The declaration is made when this scenario starts - it is the
     # last one of its shard, so the other scenarios' tuples keep the width they were built with
@@ -228,6 +256,13 @@ def run(ctx):
                 objs = [run.results[t] for t in sorted(run.results)]
                 if len(objs) + len(refused) < len(run.funcs) or not objs:
                     ctx.count("incomplete_runs")
+                    return
+                if sc["independent"]:
+                    # the threads made *different* objects on purpose (two declarations side by side); what is judged is
+                    # what those objects are to each other afterwards
+                    ctx.count("independent_declarations_in_a_race")
+                    for bad in sc["post"](base["cur"], objs):
+                        ctx.violation(f"C20:later-evaluation-differs:{sc['name']}", f"{label}: after both declarations completed, {bad} under schedule {case['schedule']}", case)
                     return
                 if any(o is not objs[0] for o in objs):
                     ctx.violation(f"C20:threads-hold-different-objects:{sc['name']}", f"{label}: threads obtained {len({id(o) for o in objs})} distinct objects for one expression under schedule {case['schedule']}", case)
